@@ -217,7 +217,7 @@ ExpandOne(s, chain, M, st, d) ==
                 RECURSIVE AsSeq(_, _)
                 AsSeq(S, kw) == IF S = {} THEN <<>> ELSE LET x == CHOOSE y \in S : TRUE IN <<St(kw, <<x>>, <<>>)>> \o AsSeq(S \ {x}, kw)
             IN AsSeq(es, "!error") \o AsSeq(us, "!unjudged")
-  ELSE IF s.kw \in NodeKw \cup {"augment"}
+  ELSE IF s.kw \in NodeKw \cup {"augment", "rpc", "input", "output", "notification"}
        THEN << [s EXCEPT !.subs = ExpandBody(@, <<Sub(s, "grouping")>> \o chain, M, StOf(s, st), d)] >>
   ELSE << s >>
 ExpandBody(stmts, chain, M, st, d) == Concat([i \in 1..Len(stmts) |-> ExpandOne(stmts[i], chain, M, st, d)])
@@ -434,6 +434,17 @@ UniqueResolve(stmts, names, X) ==
        ELSE IF ~FeatOk(n, X) THEN "gone"
        ELSE UniqueResolve(n.subs, Tail(names), X)
 
+\* operational command nodes (vyatta-opd-extensions): never configuration, never state
+OpdKw == {"opd:command", "opd:option", "opd:argument"}
+RECURSIVE BuildOpd(_, _, _)
+BuildOpd(s, st, X) ==
+  [Blank(s.kw, s.arg[1]) EXCEPT
+     !.ns = NsOfOwn(X.M, s.own), !.module = s.own,
+     !.submodule = IF HasFile(X.M, s.own) /\ IsSubm(FileOf(X.M, s.own)) THEN s.own ELSE "",
+     !.config = FALSE, !.status = StOf(s, st), !.desc = Arg1(s, "description", ""),
+     !.type = IF s.kw # "opd:command" /\ Has(s, "type") THEN LET a == Sub(s, "type")[1].arg IN a[Len(a)] ELSE "",
+     !.children = {BuildOpd(s.subs[i], StOf(s, st), X) : i \in {j \in 1..Len(s.subs) : s.subs[j].kw \in OpdKw}}]
+
 RECURSIVE BuildNode(_, _, _, _, _), BuildKids(_, _, _, _, _)
 BuildKids(stmts, cfg, st, keys, X) ==
   LET idx == {i \in 1..Len(stmts) : stmts[i].kw \in NodeKw}
@@ -442,9 +453,15 @@ BuildKids(stmts, cfg, st, keys, X) ==
       gone == idx \ here
   IN   {BuildNode(stmts[i], cfg, st, stmts[i].kw = "leaf" /\ stmts[i].arg[1] \in Range(keys), X) : i \in here}
   \cup {ErrNode("feature-unknown") : i \in unk}
+  \* the reference an if-feature makes is checked whether or not the feature is supported; what else is wrong with a
+  \* node that a feature removes is not judged
+  \cup UNION {{m \in (BuildNode([stmts[j] EXCEPT !.subs = SelectSeq(@, LAMBDA c : c.kw \notin NodeKw)], cfg, st, FALSE, X)).children : m.kind \in {"!error", "!unjudged"}
+                                                            /\ m.name \in {"status-reference", "status of a reference between a module and its submodule"}}
+             : j \in gone \ unk}
   \cup {UnjNode("a node that a feature removes is itself invalid") :
-          i \in {j \in gone \ unk : NodeMarks(BuildNode(stmts[j], cfg, st, FALSE, X), "!error") # {}}}
+          i \in {j \in gone \ unk : NodeMarks(BuildNode([stmts[j] EXCEPT !.subs = SelectSeq(@, LAMBDA c : c.kw # "if-feature")], cfg, st, FALSE, X), "!error") # {}}}
   \cup ClashMarks(stmts, X)
+  \cup {BuildOpd(stmts[i], st, X) : i \in {j \in 1..Len(stmts) : stmts[j].kw \in OpdKw}}
 
 BuildNode(s, cfg, st, isKey, X) ==
   LET cs == Sub(s, "config")
@@ -466,7 +483,8 @@ BuildNode(s, cfg, st, isKey, X) ==
       \cup (IF cs # <<>> /\ s.kw = "case" THEN {ErrNode("config-on-case")} ELSE {})
       \cup (IF StRank(t) < StRank(st) THEN {ErrNode("status-stronger-than-parent")} ELSE {})
       \cup {ErrNode("status-reference") : f \in {g \in refBad : FeatRec(X.FS, FeatId(g)).file = g.own}}
-      \cup {UnjNode("status of a reference to another file") : f \in {g \in refBad : FeatRec(X.FS, FeatId(g)).file # g.own}}
+      \cup {UnjNode("status of a reference between a module and its submodule") :
+              f \in {g \in refBad : FeatRec(X.FS, FeatId(g)).file # g.own /\ FeatId(g)[1] = ModOfFileName(X.M, g.own)}}
       \cup (IF s.kw \in {"leaf", "choice"} /\ mand /\ hasd THEN {ErrNode("mandatory-with-default")} ELSE {})
       \cup (IF s.kw \in {"list", "leaf-list"} /\ mx # "unbounded" /\ mn \in DOMAIN Digit /\ mx \in DOMAIN Digit /\ Digit[mn] > Digit[mx]
             THEN {ErrNode("min-above-max")} ELSE {})
@@ -510,8 +528,14 @@ BuildAll(M, E) ==
   LET FS == Features(M)
       eff == {id \in FeatIds(FS) : Supported(FS, E, id, Cardinality(FS) + 1)}
       X == [M |-> M, FS |-> FS, eff |-> eff]
-      tops == Concat([i \in 1..Len(M) |-> SelectSeq(M[i].subs, LAMBDA c : c.kw \in DataKw)])
-  IN [Blank("tree", "") EXCEPT !.children = BuildKids(tops, TRUE, "current", <<>>, X)
+      tops == Concat([i \in 1..Len(M) |-> SelectSeq(M[i].subs, LAMBDA c : c.kw \in DataKw \cup OpdKw)])
+      \* the parameters of an rpc and the content of a notification are trees of their own (config true at their root)
+      Tree(kind, name, ns, body) == [Blank(kind, name) EXCEPT !.ns = ns, !.children = BuildKids(body, TRUE, "current", <<>>, X)]
+      IO(r, k) == Tree(k, k, NsOfOwn(M, r.own), IF Has(r, k) THEN Sub(r, k)[1].subs ELSE <<>>)
+      rpcs == UNION {{[Blank("rpc", r.arg[1]) EXCEPT !.ns = NsOfOwn(M, r.own), !.children = {IO(r, "input"), IO(r, "output")}]
+                       : r \in Range(Sub(M[i], "rpc"))} : i \in 1..Len(M)}
+      nots == UNION {{Tree("notification", n.arg[1], NsOfOwn(M, n.own), n.subs) : n \in Range(Sub(M[i], "notification"))} : i \in 1..Len(M)}
+  IN [Blank("tree", "") EXCEPT !.children = BuildKids(tops, TRUE, "current", <<>>, X) \cup rpcs \cup nots
                                               \cup {ErrNode(p) : p \in FeatureProblems(FS, M)}
                                               \cup {UnjNode(p) : p \in FeatureUnjudged(FS, M)}]
 
@@ -570,9 +594,12 @@ FInc(fs) == [op |-> "include", fs |-> fs, b |-> FALSE]
 FExc(fs) == [op |-> "exclude", fs |-> fs, b |-> FALSE]
 FIncState(b) == [op |-> "includestate", fs |-> <<>>, b |-> b]
 OpdKinds == {"opd:command", "opd:option", "opd:argument"}
+\* rpc, input, output and notification are not schema nodes the filter is asked about: only their content is
+StructKinds == {"rpc", "input", "output", "notification"}
 RECURSIVE Pass(_, _)
 Pass(f, n) ==
-  CASE f.op = "none" -> TRUE
+  CASE n.kind \in StructKinds -> TRUE
+    [] f.op = "none" -> TRUE
     [] f.op = "config" -> n.config
     [] f.op = "opd" -> n.kind \in OpdKinds
     [] f.op = "state" -> ~n.config /\ n.kind \notin OpdKinds
